@@ -561,5 +561,22 @@ def run(ctx):
              'only when all namespaces were accepted', floor=6)
     for fam in SA:
         r6_failed_wait(ctx, fam)
+    ctx.rule('C13.R1', 'the connect / disconnect handlers that are run are '
+             'the responsible ones with their own arguments: client resolver '
+             'table over all registry states (shared rule)', floor=40)
+    ctx.rule('C13.R2', 'client namespace-handler table (shared rule)',
+             floor=4)
+    ctx.rule('C13.R3', 'client _trigger_event passes the resolved arguments '
+             'on (shared rule)', floor=10)
+    from . import c13
+    ctx._cur = 'C13.R1'
+    c13.table_rule(ctx, 'BaseClient', '_get_event_handler', c13.event_states,
+                   c13.spec_event, c13.names_event)
+    ctx._cur = 'C13.R2'
+    c13.table_rule(ctx, 'BaseClient', '_get_namespace_handler',
+                   c13.ns_states, c13.spec_ns, c13.names_ns)
+    ctx._cur = 'C13.R3'
+    for cname in ('Client', 'AsyncClient'):
+        c13.r3_trigger(ctx, cname, False)
     ctx.assume('all histories are NOT explored; the per-step state updates '
                'are decided on every path of each handler')
